@@ -7,6 +7,8 @@ rules would otherwise have to recognise one by one (and that a behaviour-preserv
   N2  tmp = E ; return tmp            ->  return E                     (tmp assigned once, used only by that return)
   N3  K <op> x  with a constant K     ->  x <mirrored op> K            (==, !=, <, <=, >, >=; single comparison)
   N5  if not C: raise X ; rest        ->  if C: rest ; raise X         (rest returns/raises on every path)
+  N6  pass next to other statements   ->  dropped
+  N7  index loops                     ->  enumerate / .items() loops   (for i in range(len(S)): x = S[i] ... ; for k in D: v = D[k] ...)
 
 Line numbers of the surviving nodes are kept, so reports still point at the right source lines.
 """
@@ -117,9 +119,66 @@ def unfold_guards(func):
                 break
 
 
+def drop_pass(tree):
+    """N6  a `pass` next to other statements is dropped"""
+    for node in ast.walk(tree):
+        for fld in ("body", "orelse", "finalbody"):
+            b = getattr(node, fld, None)
+            if isinstance(b, list) and len(b) > 1 and any(isinstance(x, ast.Pass) for x in b) and any(not isinstance(x, ast.Pass) for x in b):
+                b[:] = [x for x in b if not isinstance(x, ast.Pass)]
+
+
+def _stores(node, name):
+    return any(isinstance(x, ast.Name) and x.id == name and isinstance(x.ctx, (ast.Store, ast.Del)) for x in ast.walk(node))
+
+
+def fold_index_loops(tree):
+    """N7  for i in range(len(S)): x = S[i] ; body   ->   for i, x in enumerate(S): body
+           for k in D: v = D[k] ; body                ->   for k, v in D.items(): body       (S, D, i, k not re-bound in the body)"""
+    for n in ast.walk(tree):
+        if not (isinstance(n, ast.For) and isinstance(n.target, ast.Name) and n.body and not n.orelse):
+            continue
+        first = n.body[0]
+        if not (isinstance(first, ast.Assign) and len(first.targets) == 1 and isinstance(first.value, ast.Subscript)
+                and isinstance(first.value.slice, ast.Name) and first.value.slice.id == n.target.id):
+            continue
+        seq_txt = ast.unparse(first.value.value)
+        rest = n.body[1:]
+        if not rest:
+            continue
+        base = first.value.value
+        root = base
+        while isinstance(root, ast.Attribute):
+            root = root.value
+        if not isinstance(root, ast.Name):
+            continue
+        if any(_stores(x, n.target.id) or _stores(x, root.id) for x in rest):
+            continue
+        it = n.iter
+        if isinstance(it, ast.Call) and isinstance(it.func, ast.Name) and it.func.id in ("range", "xrange") and len(it.args) == 1 and \
+                isinstance(it.args[0], ast.Call) and isinstance(it.args[0].func, ast.Name) and it.args[0].func.id == "len" and \
+                len(it.args[0].args) == 1 and ast.unparse(it.args[0].args[0]) == seq_txt:
+            new_iter = ast.Call(func=ast.Name(id="enumerate", ctx=ast.Load()), args=[base], keywords=[])
+        elif ast.unparse(it) == seq_txt:
+            new_iter = ast.Call(func=ast.Attribute(value=base, attr="items", ctx=ast.Load()), args=[], keywords=[])
+        else:
+            continue
+        tgt = first.targets[0]
+        if not isinstance(tgt, (ast.Name, ast.Tuple)):
+            continue
+        ast.copy_location(new_iter, it)
+        n.iter = new_iter
+        new_t = ast.Tuple(elts=[ast.Name(id=n.target.id, ctx=ast.Store()), tgt], ctx=ast.Store())
+        ast.copy_location(new_t, n.target)
+        n.target = new_t
+        n.body = rest
+
+
 def canonicalise(tree):
     c = Canon()
     tree = c.visit(tree)
+    drop_pass(tree)
+    fold_index_loops(tree)
     for f in ast.walk(tree):
         if isinstance(f, (ast.FunctionDef, ast.AsyncFunctionDef)):
             c.fold_returns(f)
